@@ -57,7 +57,11 @@ class Ragged(Harness):
              ["rows_tail", "cols_rev"], ["rows_rev", "cols_tail"], ["rows_list", "rows_rev"], ["cols_tail", "rows_step"], ["rows_rev", "copy"],
              ["MASK", "cols_rev"], ["rows_tail", "EQ"], ["cols_rev", "EQ"], ["rows_rev", "COPY_ASSIGN"], ["rows_list", "COPY_ASSIGN"],
              ["rows_tail", "concat_self"], ["rows_rev", "cols_tail", "copy"], ["cols_head", "rows_rev", "EQ"], ["MASK", "rows_rev", "cols_neg"],
-             ["rows_step", "ASSIGN"]]
+             ["rows_step", "ASSIGN"],
+             ["ROWSET_ASCII"], ["ROWSET_SAME"], ["ROWSET_ASCII", "rows_rev"], ["rows_tail", "ROWSET_ASCII"], ["ROWSET_ASCII", "EQ"],
+             ["rows_empty", "copy"], ["rows_empty", "cols_tail"], ["rows_tail", "rows_empty"],
+             ["ROW_GET"], ["rows_tail", "ROW_GET"], ["rows_rev", "copy", "ROW_GET"], ["cols_tail", "ROW_GET"], ["rows_list", "ROW_GET"],
+             ["concat_self", "ROW_GET"]]
 
     def skeletons(self, tier, seed):
         out = []
@@ -73,6 +77,8 @@ class Ragged(Harness):
                     if tier == "quick" and lens != [3, 0, 1, 4] and len(p) > 1:
                         continue
                     for view in (["ravel", "decode", "string_array"] if "EQ" not in p else ["ravel"]):
+                        if "ROW_GET" in p and view == "string_array":
+                            continue
                         if tier == "quick" and view != "ravel" and (kind == "ascii" or lens != [3, 0, 1, 4]):
                             continue
                         out.append(dict(kind=kind, lens=lens, prog=p, view=view))
@@ -87,6 +93,8 @@ class Ragged(Harness):
         V.int("ch2", lo, hi)
         for i in range(len(skel["lens"]) + 1):
             V.int(f"m{i}", 0, 1)
+        for j in range(max(skel["lens"])):
+            V.int(f"a{j}", lo, hi)      # letters of an assigned row (in the operand's alphabet)
 
     def call(self, skel, x, ctx):
         from bionumpy.encoded_array import EncodedArray, EncodedRaggedArray, as_encoded_array
@@ -113,6 +121,20 @@ class Ragged(Harness):
                 result_kind = "bool"
             elif op == "ASSIGN":
                 a[a == ch] = ch2
+            elif op == "ROW_GET":
+                a = a[len(a) - 1]                 # a single row (an EncodedArray)
+                result_kind = "row"
+            elif op in ("ROWSET_ASCII", "ROWSET_SAME"):
+                # a[0] = value of the same length, given as an encoded array in ASCII / in the operand's own encoding
+                L = int(a.lengths[0])
+                codes = ctx.arr([x[f"a{j}"] for j in range(L)], "int64")
+                if op == "ROWSET_ASCII" and skel["kind"] != "ascii":
+                    from bionumpy.encoded_array import BaseEncoding
+                    table = ctx.arr([ord(ch_) for ch_ in ALPH[skel["kind"]]], "uint8")
+                    value = EncodedArray(table[codes], BaseEncoding)
+                else:
+                    value = EncodedArray(codes.astype("uint8"), enc if op == "ROWSET_SAME" else enc_of("ascii"))
+                a[0] = value
             elif op == "COPY_ASSIGN":
                 cp = a.copy()
                 cp[cp == ch] = ch2
@@ -122,6 +144,11 @@ class Ragged(Harness):
         if result_kind == "bool":
             return dict(kind="bool", rows=ctx.lst(a), log=log, src=ctx.lst(src))
         assert a.encoding == enc, "encoding of the result differs from the operand's"
+        if result_kind == "row":
+            row = ctx.lst(a) if skel["view"] == "ravel" else (ctx.lst(enc.decode(a)) if skel["view"] == "decode" else None)
+            return dict(kind="rows", rows=[row], log=log, src=ctx.lst(src))
+        if len(a) == 0:
+            log.append(("tolist", list(a.tolist())))       # a selection without rows is the empty list of strings
         if skel["view"] == "ravel":
             rows = ctx.lst(a)
         elif skel["view"] == "decode":
@@ -149,6 +176,10 @@ class Ragged(Harness):
                 rows = [[I(t, ch, ch2) for t in r] for r in rows]
                 # item assignment on a selection of a ragged array does not write through to the source rows in general;
                 # the model only tracks the object it was applied to
+            elif op == "ROW_GET":
+                rows = [rows[len(rows) - 1]]
+            elif op in ("ROWSET_ASCII", "ROWSET_SAME"):
+                rows = [[g(f"a{j}") for j in range(len(rows[0]))]] + rows[1:]
             elif op == "COPY_ASSIGN":
                 extra["copy"] = [[I(t, ch, ch2) for t in r] for r in rows]
                 log.pop(0)
@@ -189,7 +220,10 @@ class Ragged(Harness):
                 else:
                     conj.append(TI(gv) == self._decode(skel, e, True))
         # the operand the program started from is unchanged unless ASSIGN was applied to it directly (first op)
-        if "ASSIGN" not in skel["prog"]:
+        for entry in out["log"]:
+            if isinstance(entry, (list, tuple)) and len(entry) == 2 and entry[0] == "tolist" and list(entry[1]) != []:
+                return False
+        if not any(op in ("ASSIGN", "ROWSET_ASCII", "ROWSET_SAME") for op in skel["prog"]):
             if [len(r) for r in out["src"]] != [len(r) for r in src]:
                 return False
             conj += [TI(a) == b for ra, rb in zip(out["src"], src) for a, b in zip(ra, rb)]
@@ -214,8 +248,11 @@ class Ragged(Harness):
         desc = f"rows {src} ({skel['kind']}), program {skel['prog']} (choices {cout['log']}), view {skel['view']}, ch={cx['ch']}, ch2={cx['ch2']}"
         if got != exp:
             return f"{desc}: result {got}, the same operations on the list of strings give {exp}"
-        if "ASSIGN" not in skel["prog"] and cout["src"] != src:
+        if not any(op in ("ASSIGN", "ROWSET_ASCII", "ROWSET_SAME") for op in skel["prog"]) and cout["src"] != src:
             return f"{desc}: the operand changed to {cout['src']}"
+        for entry in cout["log"]:
+            if isinstance(entry, (list, tuple)) and len(entry) == 2 and entry[0] == "tolist" and list(entry[1]) != []:
+                return f"{desc}: tolist() of the result, which has no rows, is {entry[1]!r}, expected []"
         for entry in cout["log"]:
             if isinstance(entry, (list, tuple)) and len(entry) == 2 and entry[0] == "copy" and entry[1] != extra["copy"]:
                 return f"{desc}: assignment on a copy gives {entry[1]}, expected {extra['copy']}"
